@@ -49,7 +49,10 @@ func VerifEvents() {
 		if verifParam("stitch", 1) == 0 {
 			subs[i].query, subs[i].vars = `subscription { humanChanged { name } }`, nil
 		} else {
-			switch verifChoice("query"+verifItoa(i), 4) {
+			switch verifChoice("query"+verifItoa(i), 5) {
+			case 4:
+				// the field to complete is reached through a named fragment, two fields deep
+				subs[i].query, subs[i].vars = `subscription { humanChanged { ...M } } fragment M on Human { name best { phone } }`, nil
 			case 1:
 				subs[i].query, subs[i].vars = `subscription { humanChanged { phone } }`, nil
 			case 2:
